@@ -29,29 +29,43 @@ class Case:
         self.monitor.append(d)
 
 
-def compare(cases, chunk=400):
-    """Run the Lean driver on all cases' op lines; return list of mismatches
-    (case, op_index, line, expected, got).  Only the first mismatch per case is kept."""
-    mism = []
-    n_ops = 0
-    for s in range(0, len(cases), chunk):
-        part = cases[s:s + chunk]
+def compare(cases, chunk=None, workers=12):
+    """Run the Lean driver on all cases' op lines (several driver processes in parallel, one chunk of cases each);
+    return list of mismatches (case, op_index, line, expected, got).  Only the first mismatch per case is kept."""
+    from concurrent.futures import ThreadPoolExecutor
+    if not cases:
+        return [], 0
+    total = sum(len(c.ops) for c in cases)
+    if chunk is None:
+        chunk = max(1, min(400, len(cases) // (workers * 2) + 1)) if total > 20000 else 400
+    parts = [cases[s:s + chunk] for s in range(0, len(cases), chunk)]
+
+    def run_part(part):
         lines = []
         for c in part:
             lines.append("case " + c.name)
             lines += [l for (l, _e) in c.ops]
-        out = run_driver(lines)
+        out = run_driver(lines, timeout=2400)
         if len(out) != len(lines):
             raise RuntimeError(f"driver produced {len(out)} lines for {len(lines)} ops")
+        return out
+
+    with ThreadPoolExecutor(max_workers=workers) as ex:
+        outs = list(ex.map(run_part, parts))
+    mism = []
+    n_ops = 0
+    for part, out in zip(parts, outs):
         k = 0
         for c in part:
             k += 1
+            found = False
             for i, (l, e) in enumerate(c.ops):
                 got = out[k]
                 k += 1
                 n_ops += 1
-                if e is not None and got != e and not any(m[0] is c for m in mism):
+                if e is not None and got != e and not found:
                     mism.append((c, i, l, e, got))
+                    found = True
     return mism, n_ops
 
 
